@@ -4,7 +4,7 @@ H = 'checks.hC12'
 
 def plan(tier, seed):
     quick = tier == 'quick'
-    names = ['sites5', 'multiline', 'crlf', 'cr', 'crlf-xml', 'column-zero', 'guards', 'replace-switch', 'string-structure', 'macro-chain',
+    names = ['sites5', 'multiline', 'crlf', 'cr', 'crlf-xml', 'same-text-twice', 'column-zero', 'guards', 'replace-switch', 'string-structure', 'macro-chain',
              'macro-chain-composite', 'same-name-cached', 'inline-macro', 'recursive-macro', 'recursive-render', 'after-handled-macro-failure', 'filler-failure']
     jobs = [{'template': n} for n in names]
     fam = dict(name='render_error_sites', module=H, fn='H', jobs=jobs, timeout=600 if quick else 1800, vacuity=2,
@@ -19,7 +19,7 @@ def plan(tier, seed):
                    'chameleon.compiler:Compiler.visit_Macro', 'chameleon.compiler:Compiler.visit_UseExternalMacro',
                    'chameleon.tokenize:Token.location'],
         bounds=('%d templates with 3-6 evaluation points (define and attributes lists with several ;-separated parts, '
-                '${} on several lines after non-ASCII text, expressions starting in column 0 of a later line, CRLF and CR line endings in and outside XML mode, guards, switch/case/replace, string:/structure/python: '
+                '${} on several lines after non-ASCII text, expressions starting in column 0 of a later line, CRLF and CR line endings in and outside XML mode, the same composite expression text at two places of which only the second is reached, guards, switch/case/replace, string:/structure/python: '
                 'forms, two sites with same-named identical files compiled through one on-disk module cache, a template rendering itself from an expression, a failure inside a slot filler, load:/use-macro chains over three files with plain and composite (computed name, fallback alternative) macro expressions); the solver ranges over the failing point, 8 '
                 'exception classes (builtin, custom with extra constructor arguments, custom __str__, RecursionError, '
                 'a non-Exception BaseException) and an unbounded integer constructor argument. Outside: '
